@@ -389,6 +389,8 @@ func propC19(c *Ctx) {
 	defer func() {
 		rcv := c.Rule("call-vm", "every Call value built by a method of VM or Invoker carries the VM (builtins and stdlib functions run script callbacks on it and poll it for Abort)", 3)
 		ruleCallVM(c, rcv)
+		rie := c.Rule("invoke-err", "the error result of every Invoker.Invoke in the library is stored, returned or passed on (a failing script callback makes the library function return that error, not a value)", 4)
+		ruleInvokeErr(c, rie)
 		ria := c.Rule("invoker-assert", "every unchecked assertion in the methods of Invoker is covered by the cached-assertion flag set when the Invoker was built (library functions pass any callable, also without a VM)", 1)
 		ruleInvokerAssert(c, ria)
 		rfi := c.Rule("field-init", "library objects whose interface- or pointer-typed field is used without a nil test are completely built by the functions that hand them out (every path from the allocation to a successful return stores the field)", 1)
